@@ -1,0 +1,29 @@
+// Copyright © 2024 Attestant Limited.
+// Licensed under the Apache License, Version 2.0 (the "License");
+// you may not use this file except in compliance with the License.
+// You may obtain a copy of the License at
+//
+//     http://www.apache.org/licenses/LICENSE-2.0
+//
+// Unless required by applicable law or agreed to in writing, software
+// distributed under the License is distributed on an "AS IS" BASIS,
+// WITHOUT WARRANTIES OR CONDITIONS OF ANY KIND, either express or implied.
+// See the License for the specific language governing permissions and
+// limitations under the License.
+
+//go:build !verif
+
+// Package verifhook provides verification hook points.
+// Without the 'verif' build tag every hook is a no-op.
+package verifhook
+
+import "context"
+
+// Point is a hook point; it does nothing without the 'verif' build tag.
+func Point(_ context.Context, _ string, _ ...[]byte) error { return nil }
+
+// Done is a hook point for deferred calls; it does nothing without the 'verif' build tag.
+func Done(_ context.Context, _ string, _ ...[]byte) {}
+
+// Note is a hook point reporting a value; it does nothing without the 'verif' build tag.
+func Note(_ string, _ any) {}
